@@ -22,3 +22,20 @@ PROPS = {
         "defects": ["D3"],
     },
 }
+
+# Work groups register their properties in bin/vconfig_<group>.py (a dict PROPS using fam()).
+import glob as _glob
+import importlib.util as _ilu
+import os as _os
+
+for _f in sorted(_glob.glob(_os.path.join(_os.path.dirname(_os.path.abspath(__file__)), "vconfig_*.py"))):
+    _spec = _ilu.spec_from_file_location(_os.path.basename(_f)[:-3], _f)
+    _m = _ilu.module_from_spec(_spec)
+    _m.fam = fam
+    _spec.loader.exec_module(_m)
+    for _k, _v in _m.PROPS.items():
+        if _k in PROPS:
+            _v = dict(_v)
+            _v["families"] = PROPS[_k].get("families", []) + _v.get("families", [])
+            _v["defects"] = sorted(set(PROPS[_k].get("defects", []) + _v.get("defects", [])))
+        PROPS[_k] = _v
